@@ -53,6 +53,10 @@ def _sym_format(obj, format_spec=""):
     with _NoTracing():
         is_symint = isinstance(obj, _bl.SymbolicInt)
         spec = format_spec if isinstance(format_spec, str) else None
+        own_format = getattr(type(obj), "__vp_no_realize__", False)
+    if own_format:
+        # harness stand-in objects carry symbolic state; CrossHair's format() would deep-realize them
+        return type(obj).__format__(obj, format_spec)
     if is_symint and spec is not None:
         if spec in ("", "d"):
             return str(obj)
